@@ -6,8 +6,17 @@ from .vtypes import *  # noqa
 _ctr = itertools.count()
 
 
+_last = [0]
+
+
 def fresh_name(base):
-    return "%s!%d" % (base, next(_ctr))
+    _last[0] = next(_ctr)
+    return "%s!%d" % (base, _last[0])
+
+
+def fresh_mark():
+    """the number of the most recent fresh name (names made later have larger numbers)"""
+    return _last[0]
 
 
 def default_of(sort):
